@@ -274,6 +274,12 @@ int main(int argc, char** argv) {
       observe(cur, 1, "");
       continue;
     }
+    if (w == "newq") {
+      // create_session and NOTHING else: no read of the new session follows (every read is a call on the id, which marks the
+      // session active), so what the next op finds is the session exactly as create_session left it; prints nothing
+      cur = api->create_session(); sessions.push_back(cur); alive.push_back(cur != 0);
+      continue;
+    }
     if (w == "new") { cur = api->create_session(); sessions.push_back(cur); alive.push_back(cur != 0); ret = cur != 0; }
     else if (w == "use") { size_t k; is >> k; cur = k < sessions.size() ? sessions[k] : 0; }
     else if (w == "cleanup_all") { api->cleanup_all_sessions(); for (size_t k = 0; k < alive.size(); ++k) alive[k] = false; }
